@@ -1067,6 +1067,292 @@ def eval_programs(payload):
 
 
 # ----------------------------------------------------------------------------------------
+# work item 4: geometry where a cheap test (centre / radius) and the exact test disagree
+#   - occluders that are LARGE relative to visibleDistance and OFF-CENTRE: their centre is
+#     beyond visibleDistance (1.5x) or beyond twice that (2.8x) from the camera, their body
+#     crosses the camera-target segment close to the camera
+#   - long targets: centre beyond visibleDistance but a near part well inside the view volume
+#     (must be visible); nearest point within visibleDistance but outside the view angles while
+#     the part within the angles is beyond visibleDistance (must not be visible)
+# ----------------------------------------------------------------------------------------
+def far_walls(vd, d_hat, s, tier):
+    """(label, k, centre, rotation, dims) of walls in the viewer frame that cross the sight line
+    along d_hat at distance s from the camera and whose centre is k * vd away along the wall."""
+    zl = np.array([0.0, 0.0, 1.0])
+    xs = np.cross(d_hat, zl)
+    if np.linalg.norm(xs) < 0.2:
+        xs = np.array([1.0, 0.0, 0.0])
+    xs = xs / np.linalg.norm(xs)
+    zs = np.cross(xs, d_hat)
+    back = -0.8 * d_hat + 0.6 * xs
+    defs = [
+        ("sideways", 1.5, xs, d_hat),
+        ("sideways-opposite", 2.8, -xs, d_hat),
+        ("above", 2.8, zs, d_hat),
+        ("below", 1.5, -zs, d_hat),
+        ("behind-and-wrapping", 2.8, back, 0.6 * d_hat + 0.8 * xs),
+    ]
+    if tier != "quick":
+        defs += [(lab, 4.3 - k, e, n) for lab, k, e, n in defs]
+    out = []
+    for lab, k, e, n in defs:
+        F = M.frame_from_axes(e, n)
+        long_len = 2 * k * vd + 2 * vd
+        centre = s * d_hat + k * vd * F[:, 0]
+        out.append((lab, k, centre, F, (long_len, 0.15 + 0.01 * vd, 0.5 * vd)))
+    return out
+
+
+def eval_far(payload):
+    s = S()
+    acc = Acc()
+    spec, tier = payload["spec"], payload["tier"]
+    V = s.Vector
+    cam, R, ang, vd = model_of(spec)
+    kind = spec["kind"]
+    viewer = build_viewer(spec)
+    rad_m = RAD_M_FRAC * vd
+    h, v = (360, 180) if kind == "Point" else eff_angles(spec["ang"])
+    vobj = [viewer] if kind == "Object" else []
+
+    def world_box(centre_l, F_l, dims, occluding=True):
+        Rm = R @ F_l
+        c = cam + R @ np.asarray(centre_l)
+        obj = build_box(c, Rm, dims, occluding)
+        if obj is None:
+            acc.inc("skipped_gimbal")
+            return None
+        mesh = M.box_mesh(dims, Rm, c)
+        return obj, mesh, c, Rm
+
+    def mk(what, extra):
+        c = {"type": "far", "spec": spec, "tier": tier, "what": what}
+        c.update(extra)
+        return c
+
+    def ask(route, target, objs):
+        if route == "canSee":
+            return guarded(lambda: bool(viewer.canSee(target, occludingObjects=tuple(o for o in objs if o.occluding))))
+        if route == "can-see-operator":
+            return guarded(lambda: op_can_see(viewer, target, vobj + list(objs)))
+        tt = target if not isinstance(target, V) else s.Point._with(position=target)
+        return guarded(lambda: req_can_see(viewer, tt, vobj + list(objs)))
+
+    def judge(obs, exp, sig_core, desc, case):
+        acc.inc("evaluations")
+        if isinstance(obs, Raised):
+            acc.violation(f"visibility-query-raises:{obs.name}:{kind}:far", desc + f"\nraised {obs.text}", case)
+        elif obs is None or obs != exp:
+            acc.violation(sig_core, desc + f"\nexpected visible={exp} (reference model), observed {obs}", case)
+
+    # ---- A. point targets behind / in front of large off-centre walls
+    dirs = [(0.0, 0.0), (min(h / 4, 35.0), -min(v / 4, 25.0))]
+    first_wall_checked = False
+    for di, (az, alt) in enumerate(dirs):
+        d_hat = M.direction(math.radians(az), math.radians(alt))
+        for wi, (lab, k, c_l, F_l, dims) in enumerate(far_walls(vd, d_hat, 0.35 * vd, tier)):
+            wb = world_box(c_l, F_l, dims)
+            if wb is None:
+                continue
+            wall, mesh, wc, Rm = wb
+            if not first_wall_checked:
+                check_placement(wall, mesh[0], "a large wall")
+                first_wall_checked = True
+            centre_dist = float(np.linalg.norm(wc - cam))
+            near_dist = M.point_box_distance(cam, wc, Rm, dims)
+            for rf in (0.6, 0.2):
+                p = cam + R @ (rf * vd * d_hat)
+                cls = M.classify_point(cam, R, ang, vd, p, ANG_M, rad_m)
+                sl = M.sightline(cam, p, [mesh])
+                if cls != M.IN or sl == M.GRAZING:
+                    acc.inc("skipped_touching")
+                    continue
+                exp = sl == M.CLEAR
+                acc.inc("far_point_cases")
+                if not exp and centre_dist > vd and near_dist < vd:
+                    acc.inc("far_centre_gt_vd_blocking")
+                if not exp and centre_dist > 2 * vd and near_dist < vd:
+                    acc.inc("far_centre_gt_2vd_blocking")
+                acc.flags.add(f"far|{'T' if exp else 'F'}")
+                pv = V(*p)
+                for route in ("canSee", "can-see-operator" if wi % 2 == 0 else "requirement-classes"):
+                    obs = ask(route, pv, [wall])
+                    judge(
+                        obs,
+                        exp,
+                        f"point-visibility:{'false-positive' if not exp else 'false-negative'}:{kind}:{route}:large-off-centre-occluder",
+                        f"viewer: {describe_viewer(spec)}\ntarget point {fmt(p)} at {rf:g} x visibleDistance in direction az {az:g} alt {alt:g} deg; "
+                        f"occluder: wall '{lab}' {fmt(dims)} centred at {fmt(wc)} = {centre_dist / vd:.2f} x visibleDistance from the camera "
+                        f"(nearest point {near_dist / vd:.2f} x visibleDistance), sight line {sl}; via {route}",
+                        mk("point", {"dir": di, "wall": wi, "rf": rf, "route": route}),
+                    )
+    # ---- B. small object targets wholly in the shadow of a large off-centre wall
+    d_hat = M.direction(0.0, 0.0)
+    dist = 0.6 * vd
+    for shape, size, walls_used in (("Box", 0.05 * vd, None), ("Frame", 0.09 * vd, (1, 4))):
+        dims_t = target_dims(shape, size)
+        typr = (25, 15, -10)
+        Rt = M.rot_deg(typr)
+        centre = cam + R @ (dist * d_hat)
+        sh = s.shapes[shape]
+        target = s.Object._with(
+            position=V(*centre), yaw=math.radians(typr[0]), pitch=math.radians(typr[1]), roll=math.radians(typr[2]),
+            shape=sh, width=dims_t[0], length=dims_t[1], height=dims_t[2],
+        )
+        tverts = M.place_mesh(np.asarray(sh.mesh.vertices), dims_t, Rt, centre)
+        rb = float(np.max(np.linalg.norm(tverts - centre, axis=1)))
+        cls = M.classify_ball(cam, R, ang, vd, centre, rb, ANG_M, rad_m)
+        inflated = M.inflate(tverts, centre, 1.2)
+        for wi, (lab, k, c_l, F_l, dims) in enumerate(far_walls(vd, d_hat, dist - 1.2 * rb - 0.06 * vd, tier)):
+            if walls_used is not None and wi not in walls_used:
+                continue
+            wb = world_box(c_l, F_l, dims)
+            if wb is None:
+                continue
+            wall, mesh, wc, Rm = wb
+            hidden = M.in_shadow_of(cam, list(inflated) + [centre], *mesh)
+            if not hidden and cls != M.OUT:
+                acc.inc("skipped_touching")
+                continue
+            centre_dist = float(np.linalg.norm(wc - cam))
+            near_dist = M.point_box_distance(cam, wc, Rm, dims)
+            acc.inc("far_object_cases")
+            if centre_dist > 2 * vd and near_dist < vd:
+                acc.inc("far_centre_gt_2vd_blocking")
+            if centre_dist > vd and near_dist < vd:
+                acc.inc("far_centre_gt_vd_blocking")
+            routes = ["canSee"]
+            if shape == "Box" and wi == 1:
+                routes.append("can-see-operator")
+            if shape == "Box" and wi == 4:
+                routes.append("requirement-classes")
+            for route in routes:
+                obs = ask(route, target, [target, wall] if route != "canSee" else [wall])
+                judge(
+                    obs,
+                    False,
+                    f"object-visibility:fully-occluded-reported-visible:{kind}:{route}:large-off-centre-occluder",
+                    f"viewer: {describe_viewer(spec)}\ntarget: {shape} {fmt(dims_t)} at {fmt(centre)} ({cls} the view volume); occluder: wall '{lab}' "
+                    f"{fmt(dims)} centred at {fmt(wc)} = {centre_dist / vd:.2f} x visibleDistance from the camera (nearest point "
+                    f"{near_dist / vd:.2f} x visibleDistance); every sight line to the target's inflated hull meets the wall; via {route}",
+                    mk("object", {"shape": shape, "wall": wi, "route": route}),
+                )
+    # ---- C. long targets
+    w = 0.04 * vd + 0.1
+    longs = [("along-sight-line", (0.0, 1.7 * vd, 0.0), (w, 3.0 * vd, w)), ("along-sight-line", (0.0, 2.7 * vd, 0.0), (w, 5.0 * vd, w))]
+    if kind != "Point" and h in (30, 90):
+        longs.append(("beside-the-view-cone", (-1.2 * vd * math.sin(math.radians(h / 2)), 1.1 * vd, 0.0), (w, 2.8 * vd, w)))
+    if kind != "Point" and v in (20, 90):
+        # starts just ahead of the camera so that it does not wrap behind the viewer (which would make Scenic cast every ray)
+        longs.append(("above-the-view-cone", (0.013 * vd, 1.25 * vd, 1.2 * vd * math.sin(math.radians(v / 2))), (w, 2.4 * vd, w)))
+    for li, (lab, c_l, dims) in enumerate(longs):
+        wb = world_box(c_l, np.eye(3), dims)
+        if wb is None:
+            continue
+        tobj, mesh, tc, Rm = wb
+        centre_dist = float(np.linalg.norm(tc - cam))
+        near_dist = M.point_box_distance(cam, tc, Rm, dims)
+        cover = [M.classify_ball(cam, R, ang, vd, c, r, ANG_M, rad_m) for c, r in M.box_cover_balls(tc, Rm, dims)]
+        spacing = ray_spacing_deg(spec, centre_dist)
+        inner_ok = False
+        for c, r in M.box_inner_balls(tc, Rm, dims):
+            dcb = float(np.linalg.norm(c - cam))
+            if dcb > r and M.classify_ball(cam, R, ang, vd, c, r, ANG_M, rad_m) == M.IN:
+                if 2 * math.degrees(math.asin(r / dcb)) >= 4.0 * spacing:
+                    inner_ok = True
+                    break
+        if all(x == M.OUT for x in cover):
+            exp = False
+            if near_dist < vd:
+                acc.inc("long_target_near_point_within_vd_but_outside")
+        elif inner_ok:
+            exp = True
+            if centre_dist > vd:
+                acc.inc("long_target_centre_beyond_vd_but_inside")
+        else:
+            acc.inc("skipped_touching")
+            continue
+        acc.inc("long_target_cases")
+        for route in ("canSee", "can-see-operator" if li % 2 == 0 else "requirement-classes"):
+            obs = ask(route, tobj, [tobj] if route != "canSee" else [])
+            judge(
+                obs,
+                exp,
+                ("object-visibility:near-part-inside-not-visible" if exp else "object-visibility:outside-view-volume-reported-visible")
+                + f":{kind}:{route}:long-target",
+                f"viewer: {describe_viewer(spec)}\ntarget: long box '{lab}' {fmt(dims)} centred at {fmt(tc)} = {centre_dist / vd:.2f} x visibleDistance "
+                f"from the camera, nearest point {near_dist / vd:.2f} x visibleDistance; "
+                + ("a ball inscribed in its near part lies inside the view volume by the margins" if exp else "every ball of a cover of the box lies outside the view volume by the margins")
+                + f"; via {route}",
+                mk("long", {"long": li, "route": route}),
+            )
+    # ---- D. compiled programs
+    head = ["workspace = Workspace(BoxRegion(dimensions=(2000, 2000, 2000)))"]
+    vl = f"v = new {kind} at {_vec(spec['pos'])}, with visibleDistance {_num(vd)}"
+    if kind != "Point":
+        vl += ", " + _orient([math.radians(a) for a in spec["ypr"]])
+        vl += f", with viewAngles ({_num(math.radians(spec['ang'][0]))}, {_num(math.radians(spec['ang'][1]))})"
+    if kind == "Object":
+        vl += f", with cameraOffset {_vec(CAM_OFF)}, with width {VIEWER_DIMS[0]}, with length {VIEWER_DIMS[1]}, with height {VIEWER_DIMS[2]}, with allowCollisions True"
+    head.append(vl)
+    d_hat = M.direction(0.0, 0.0)
+    p = cam + R @ (0.6 * vd * d_hat)
+    size = 0.05 * vd
+    rb = size * math.sqrt(3) / 2
+    corners = np.array([[a, b, c] for a in (-1, 1) for b in (-1, 1) for c in (-1, 1)], float) * (size / 2) * 1.2 + p
+    for wi, s_cross in ((1, 0.35 * vd), (4, 0.6 * vd - 1.2 * rb - 0.06 * vd)):
+        lab, k, c_l, F_l, dims = far_walls(vd, d_hat, s_cross, tier)[wi]
+        Rm = R @ F_l
+        wy = ypr_of_matrix(Rm)
+        if wy is None:
+            continue
+        wc = cam + R @ c_l
+        mesh = M.box_mesh(dims, Rm, wc)
+        for occluding in (True, False):
+            wl = (
+                f"wall = new Object at {_vec(wc)}, {_orient(wy)}, with width {_num(dims[0])}, with length {_num(dims[1])}, "
+                f"with height {_num(dims[2])}, with allowCollisions True, with occluding {occluding}"
+            )
+            if wi == 1:
+                cls = M.classify_point(cam, R, ang, vd, p, ANG_M, rad_m)
+                sl = M.sightline(cam, p, [mesh]) if occluding else M.CLEAR
+                if cls != M.IN or sl == M.GRAZING:
+                    continue
+                vis, form, lines = sl == M.CLEAR, "require-can-see-vector", [f"require v can see {_vec(p)}"]
+            else:
+                cls = M.classify_ball(cam, R, ang, vd, p, rb, ANG_M, rad_m)
+                hidden = occluding and M.in_shadow_of(cam, list(corners) + [p], *mesh)
+                if hidden:
+                    vis = False
+                elif cls == M.IN and not occluding:
+                    vis = True
+                else:
+                    continue
+                form = "visible-from-object"
+                lines = [f"t = new Object at {_vec(p)}, with width {_num(size)}, with length {_num(size)}, with height {_num(size)}, with allowCollisions True, visible from v"]
+            text = "\n".join(head + [wl] + lines) + "\n"
+            res, msg = run_program(text)
+            acc.inc("evaluations")
+            acc.inc("far_programs")
+            if res in ("error", "raised"):
+                if res == "error":
+                    raise HarnessError(f"C17 program does not compile: {msg}\n{text}")
+                acc.violation(f"scenario:{form}:raises:{msg.split(':')[0]}:{kind}", f"raised {msg}\n{text}", mk("program", {"wall": wi, "occluding": occluding}))
+                continue
+            acc.flags.add(f"farprog|{'A' if vis else 'R'}")
+            if (res == "accept") != vis:
+                acc.violation(
+                    f"scenario:{form}:{'accepted' if res == 'accept' else 'rejected'}-against-reference:{kind}:large-off-centre-occluder",
+                    f"wall '{lab}' centred {np.linalg.norm(wc - cam) / vd:.2f} x visibleDistance from the camera, occluding={occluding}; reference: "
+                    f"visible={vis}; expected scene generation to {'accept' if vis else 'reject'}, observed {res} {msg}\n{text}",
+                    mk("program", {"wall": wi, "occluding": occluding}),
+                )
+    if not acc.samples:
+        acc.samples.append({"viewer": describe_viewer(spec), "item": "large off-centre occluders and long targets", "counts": dict(acc.c)})
+    return acc.out()
+
+
+# ----------------------------------------------------------------------------------------
 # plan / run
 # ----------------------------------------------------------------------------------------
 def dispatch(item):
@@ -1078,6 +1364,8 @@ def dispatch(item):
         r = eval_points(payload)
     elif kind == "object":
         r = eval_object(payload)
+    elif kind == "far":
+        r = eval_far(payload)
     else:
         r = eval_programs(payload)
     r["cpu"] = time.process_time() - t0
@@ -1189,6 +1477,15 @@ def plan(tier):
     for kind, mode, pos, r, ang in pv:
         for part in range(PROGRAM_PARTS):
             items.append(("programs", {"spec": viewer_spec(kind, mode, pos, r, ang, 10.0), "part": part}))
+    # --- large off-centre occluders, long targets (small visible distances)
+    if quick:
+        fposes = [("off", positions[0], (0, 0, 0)), ("off", positions[0], (40, 30, 45)), ("cam0", None, (-135, -60, 120))]
+        fl = [(x, 3.0) for x in kpa(fposes, [(90, 90), (360, 180)])] + [(x, 10.0) for x in kpa(fposes[:1], [(30, 20), (200, 90)])]
+    else:
+        fposes = [("off", positions[0], r) for r in ROTS_QUICK] + [("off", positions[1], (40, 30, 45))] + [("cam0", None, r) for r in ROTS_ORIGIN_QUICK]
+        fl = [(x, vd) for x in kpa(fposes, ANGLES_OBJ_QUICK + [(90, 20), (360, 180)]) for vd in (3.0, 10.0)]
+    for (kind, mode, pos, r, ang), vd in fl:
+        items.append(("far", {"spec": viewer_spec(kind, mode, pos, r, ang, vd), "tier": tier}))
     return items
 
 
@@ -1232,12 +1529,12 @@ def run(ctx):
     gc.collect()
     gc.freeze()  # performance only: keeps the forked workers from copying the parent's heap page by page
     items = ctx.rotate(plan(ctx.tier))
-    items.sort(key=lambda it: {"programs": 0, "object": 1, "points": 2}[it[0]])  # stable: long items first
+    items.sort(key=lambda it: {"programs": 0, "far": 1, "object": 2, "points": 3}[it[0]])  # stable: long items first
     tot = {}
     nsig = {}
     flags = set()
     samples = []
-    n_items = {"points": 0, "object": 0, "programs": 0}
+    n_items = {"points": 0, "object": 0, "programs": 0, "far": 0}
     shown = {}
     cpu = {}
     for (ikind, _), r in zip(items, ctx.pmap(dispatch, items, chunksize=2)):
@@ -1276,13 +1573,36 @@ def run(ctx):
     for k in ("occlusion_flips", "rotated_off_origin_cases", "monotonicity_pairs", "nontrivial_orientation", "object_occluder_behind_cases", "programs", "point_occluder_cases", "occluders_present_but_clear"):
         if tot.get(k, 0) <= 0:
             raise HarnessError(f"vacuous: counter {k} is 0")
+    for k in (
+        "far_point_cases",
+        "far_object_cases",
+        "far_centre_gt_vd_blocking",
+        "far_centre_gt_2vd_blocking",
+        "long_target_centre_beyond_vd_but_inside",
+        "long_target_near_point_within_vd_but_outside",
+        "far_programs",
+    ):
+        if tot.get(k, 0) <= 0:
+            raise HarnessError(f"vacuous: counter {k} is 0")
+    for f in ("far|T", "far|F", "farprog|A", "farprog|R"):
+        if f not in flags:
+            raise HarnessError(f"vacuous: {f} never judged")
     progflags = sorted(f for f in flags if f.startswith("prog|"))
     forms = {f.split("|")[1] for f in progflags}
     for form in forms:
         if f"prog|{form}|A" not in flags or f"prog|{form}|R" not in flags:
             raise HarnessError(f"vacuous: program form {form} never expected to be both accepted and rejected")
 
-    judged = tot.get("point_cases", 0) + tot.get("point_occluder_cases", 0) + tot.get("object_judgements", 0) + tot.get("programs", 0)
+    judged = (
+        tot.get("point_cases", 0)
+        + tot.get("point_occluder_cases", 0)
+        + tot.get("object_judgements", 0)
+        + tot.get("programs", 0)
+        + tot.get("far_point_cases", 0)
+        + tot.get("far_object_cases", 0)
+        + tot.get("long_target_cases", 0)
+        + tot.get("far_programs", 0)
+    )
     nontrivial = tot.get("nontrivial_orientation", 0) + tot.get("occlusion_flips", 0)
     ctx.cov.update(
         evaluations=tot.get("evaluations", 0),
@@ -1292,7 +1612,10 @@ def run(ctx):
         "each bound +-3 deg) at 0.6 visibleDistance, plus radii 0.2/0.9/1.1/1.5 on five directions; x all 8 subsets of 3 box occluders for "
         "the directions near an occluder] + [object targets: 5 shapes x placements (ahead, behind, elevated, beyond, straddling "
         "distance/azimuth/altitude bound, outside each bound) x ray settings x all 8 subsets of (wall in front, wall behind, partial slab)] "
-        "+ [compiled all-constant programs per viewer]. A case is judged only when every bound is cleared by 2 deg / 5% of the distance "
+        "+ [compiled all-constant programs per viewer] + [cheap-vs-exact geometry: walls 5-8 visibleDistances long whose centre is 1.5 / 2.8 "
+        "visibleDistances from the camera (sideways, opposite, above, below, behind-and-wrapping) crossing the sight line at 0.35 visibleDistance, "
+        "for point targets in front / behind and small object targets in their shadow; long box targets with centre beyond visibleDistance "
+        "and near end inside, or nearest point within visibleDistance but wholly outside the view cone]. A case is judged only when every bound is cleared by 2 deg / 5% of the distance "
         "and no sight line grazes an occluder. Non-trivial = judged point whose verdict changes if the viewer's orientation is ignored, "
         "or a target whose verdict is flipped by an occluder subset.",
         samples=samples,
@@ -1314,6 +1637,17 @@ def run(ctx):
         occlusion_flips=tot.get("occlusion_flips", 0),
         rotated_off_origin_cases=tot.get("rotated_off_origin_cases", 0),
         nontrivial_orientation=tot.get("nontrivial_orientation", 0),
+        cheap_vs_exact={
+            "viewer_configs": n_items["far"],
+            "point_cases_with_large_off_centre_occluder": tot.get("far_point_cases", 0),
+            "object_cases_hidden_by_large_off_centre_occluder": tot.get("far_object_cases", 0),
+            "blocking_occluder_centre_beyond_visibleDistance_nearest_point_within": tot.get("far_centre_gt_vd_blocking", 0),
+            "blocking_occluder_centre_beyond_2x_visibleDistance_nearest_point_within": tot.get("far_centre_gt_2vd_blocking", 0),
+            "long_target_cases": tot.get("long_target_cases", 0),
+            "long_target_centre_beyond_visibleDistance_but_near_part_inside": tot.get("long_target_centre_beyond_vd_but_inside", 0),
+            "long_target_nearest_point_within_visibleDistance_but_wholly_outside": tot.get("long_target_near_point_within_vd_but_outside", 0),
+            "programs": tot.get("far_programs", 0),
+        },
         skipped_touching=tot.get("skipped_touching", 0),
         skipped_grazing=tot.get("skipped_grazing", 0),
         skipped_gimbal=tot.get("skipped_gimbal", 0),
@@ -1360,6 +1694,12 @@ def replay(ctx, case):
         r = _uncapped(eval_object, base)
         for sig, desc, c in r["viol"]:
             if c["what"] == case["what"] and list(c["subset"]) == list(case["subset"]):
+                ctx.violation(sig, desc, c)
+    elif t == "far":
+        r = _uncapped(eval_far, {"spec": case["spec"], "tier": case["tier"]})
+        keys = [k for k in case if k not in ("spec",)]
+        for sig, desc, c in r["viol"]:
+            if all(c.get(k) == case[k] for k in keys):
                 ctx.violation(sig, desc, c)
     else:
         r = _uncapped(eval_programs, {"spec": case["spec"], "part": None})
